@@ -11,15 +11,16 @@
 (* (0 = "not one of the input events") and the log of the comparison       *)
 (* function's calls as pairs of input positions (0 = not an input event).  *)
 (***************************************************************************)
-EXTENDS Lattice
+EXTENDS Lattice, TLC
 
 Nodes(c) == 1..c.n
 Edge(c, i, j) == \E k \in DOMAIN c.e : c.e[k] = <<i, j>> \/ c.e[k] = <<j, i>>
 
-\* neighbour sets, computed once per case
-NbF(c) == [i \in 1..c.n |->
+\* neighbour sets, computed once per case.  TLCEval forces the value: TLC otherwise keeps [i \in S |-> e] as a
+\* lambda and re-evaluates e at every application (exponential in the recursive definitions below)
+NbF(c) == TLCEval([i \in 1..c.n |->
              {c.e[k][2] : k \in {k \in DOMAIN c.e : c.e[k][1] = i}} \cup
-             {c.e[k][1] : k \in {k \in DOMAIN c.e : c.e[k][2] = i}}]
+             {c.e[k][1] : k \in {k \in DOMAIN c.e : c.e[k][2] = i}}])
 
 \* reachability: iterate S := S \cup N(S) at most n times (a chain has at most n - 1 links)
 RECURSIVE Grow(_, _, _)
@@ -27,7 +28,7 @@ Grow(nb, S, k) ==
     IF k = 0 THEN S
     ELSE LET T == S \cup UNION {nb[x] : x \in S}
          IN  IF T = S THEN S ELSE Grow(nb, T, k - 1)
-CompF(c) == LET nb == NbF(c) IN [i \in 1..c.n |-> Grow(nb, {i}, c.n)]
+CompF(c) == LET nb == NbF(c) IN TLCEval([i \in 1..c.n |-> Grow(nb, {i}, c.n)])
 Connected(c, i, j) == j \in CompF(c)[i]
 
 (***************************************************************************)
@@ -36,9 +37,9 @@ Connected(c, i, j) == j \in CompF(c)[i]
 (***************************************************************************)
 RECURSIVE WF(_, _)
 WF(c, k) ==
-    IF k = 0 THEN [p \in Nodes(c) \X Nodes(c) |-> p[1] = p[2] \/ Edge(c, p[1], p[2])]
+    IF k = 0 THEN TLCEval([p \in Nodes(c) \X Nodes(c) |-> p[1] = p[2] \/ Edge(c, p[1], p[2])])
     ELSE LET prev == WF(c, k - 1)
-         IN  [p \in Nodes(c) \X Nodes(c) |-> prev[p] \/ (prev[<<p[1], k>>] /\ prev[<<k, p[2]>>])]
+         IN  TLCEval([p \in Nodes(c) \X Nodes(c) |-> prev[p] \/ (prev[<<p[1], k>>] /\ prev[<<k, p[2]>>])])
 
 (* ---- laws of Req (checked by TLC on every enumerated graph) ---- *)
 LawEquivalence(c) ==
